@@ -68,10 +68,13 @@ template <class P> struct H {
     static V3 genVec(vh::Rng& g, double lo = 0.1, double hi = 3) { return V3(c(g.signedMag(lo, hi)), c(g.signedMag(lo, hi)), c(g.signedMag(lo, hi))); }
     static Rot genRot(vh::Rng& g) {
         Vec<4, P> q; for (;;) { q = Vec<4, P>(c(g.range(-1, 1)), c(g.range(-1, 1)), c(g.range(-1, 1)), c(g.range(-1, 1))); double n = (double)q.norm(); if (n > 0.2 && n <= 1) break; }
+        int sp = g.below(12);
+        if (sp == 0) { vh::D(fn("rot") + ".identity"); return Rot(); }
+        if (sp == 1) { vh::D(fn("rot") + ".halfturn"); q[0] = 0; }          // rotation by 180 degrees about a random axis
         return Rot(Quaternion_<P>(q));
     }
     // a physically valid body: cloud of point masses (generic / thin rod / disc / single point mass)
-    struct Body { P m; V3 com; In Io; std::string cls; };
+    struct Body { P m; V3 com; In Io; std::string cls; std::vector<V3> pts; std::vector<P> ms; };
     static Body genBody(vh::Rng& g) {
         Body b; int k = g.below(8); int n = 3 + g.below(4);
         b.cls = "cloud";
@@ -85,7 +88,7 @@ template <class P> struct H {
             if (b.cls == "rod") p = origin + c(g.range(-2, 2)) * dir;
             else if (b.cls == "disc") p = origin + c(g.range(-2, 2)) * dir + c(g.range(-2, 2)) * dir2;
             else p = origin + genVec(g, 0.05, 2);
-            b.m += mi; mom += mi * p; b.Io += In(p, mi);
+            b.m += mi; mom += mi * p; b.Io += In(p, mi); b.pts.push_back(p); b.ms.push_back(mi);
         }
         b.com = mom / b.m;
         return b;
@@ -103,6 +106,17 @@ template <class P> struct H {
         In Iback = Ic.shiftFromMassCenter(b.com, b.m);
         { vh::Line in = vh::I(fn("shiftFrom")); putS(in, Ic.asSymMat33()); putV(in, b.com); in.d(b.m); in.emit(); tol(); vh::Line o = vh::O(fn("shiftFrom")); putS(o, Iback.asSymMat33()); o.emit(); vh::D(fn("shiftFrom") + k); }
         double sc = std::max(symNorm(b.Io.asSymMat33()), (double)(b.m * b.com.normSqr()));
+        // Koenig / parallel-axis for the whole cloud: the central inertia equals the sum of the point-mass inertias taken
+        // about the mass centre (computed here directly from the generated points in long double)
+        { LD kk[6] = {0, 0, 0, 0, 0, 0};
+          for (size_t i = 0; i < b.pts.size(); ++i) { LD x = (LD)b.pts[i][0] - b.com[0], y = (LD)b.pts[i][1] - b.com[1], z = (LD)b.pts[i][2] - b.com[2], m = b.ms[i];
+              kk[0] += m * (y * y + z * z); kk[1] += m * (x * x + z * z); kk[2] += m * (x * x + y * y); kk[3] -= m * x * y; kk[4] -= m * x * z; kk[5] -= m * y * z; }
+          const Sym& C = Ic.asSymMat33(); LD w = 0; LD got[6] = {C(0, 0), C(1, 1), C(2, 2), C(1, 0), C(2, 0), C(2, 1)};
+          for (int i = 0; i < 6; ++i) w = std::max(w, std::fabs(got[i] - kk[i]));
+          vh::P("central_inertia_is_inertia_about_mass_centre", fn("shiftTo") + k + ".koenig", (double)w / sc, 64 * eps()); }
+        // in-place variants agree with the value-returning ones
+        { In a = b.Io; a.shiftToMassCenterInPlace(b.com, b.m); In c2 = Ic; c2.shiftFromMassCenterInPlace(b.com, b.m);
+          vh::P("inplace_equals_value_version", fn("shiftTo") + k + ".inplace", std::max(symDiff(a.asSymMat33(), Ic.asSymMat33()), symDiff(c2.asSymMat33(), Iback.asSymMat33())), 0.0); }
         vh::P("shift_roundtrip", fn("shiftFrom") + k + ".rt", symDiff(Iback.asSymMat33(), b.Io.asSymMat33()) / sc, 64 * eps());
         In Iq = Ic.shiftFromMassCenter(p, b.m).shiftToMassCenter(p, b.m);
         double sc2 = std::max(symNorm(Ic.asSymMat33()), (double)(b.m * p.normSqr()));
@@ -191,6 +205,16 @@ template <class P> struct H {
         SV Pr = Mr * Vr;
         vh::P("kinetic_energy_reexpress_invariant", fn("siReexpress") + k + ".ke", std::fabs(ke - (double)svDot(Vr, Pr)) / (dn * vn * vn), 64 * eps());
         vh::P("reexpress_commutes_with_product", fn("siReexpress") + k + ".comm", svDiff(Pr, SV(~R * MV[0], ~R * MV[1])) / (dn * vn), 64 * eps());
+        { SV Fr(~R * F[0], ~R * F[1]);
+          vh::P("power_reexpress_invariant", fn("siReexpress") + k + ".power", std::fabs((double)svDot(F, V) - (double)svDot(Fr, Vr)) / (svNorm(F) * vn), 64 * eps()); }
+        // operators: -= undoes +=, *= and /= scale the mass only, in-place shift / re-expression equal the value versions
+        { Body b3 = genBody(g); SI M3 = toSI(b3); SI back = (M + M3) - M3;
+          vh::P("minus_undoes_plus", fn("siAdd") + ".minus", smDiff(back.toSpatialMat(), dense) / (dn + smNorm(M3.toSpatialMat())), 256 * eps());
+          SI sc2 = M; sc2 *= P(3); SI sc3 = sc2; sc3 /= P(3);
+          vh::P("scaling_scales_dense_matrix", fn("siDense") + k + ".scale", smDiff(sc2.toSpatialMat(), SI(M.getMass() * P(3), M.getMassCenter(), M.getUnitInertia()).toSpatialMat()) / dn, 16 * eps());
+          vh::P("scaling_scales_dense_matrix", fn("siDense") + k + ".unscale", smDiff(sc3.toSpatialMat(), dense) / dn, 16 * eps());
+          SI ip = M; ip.shiftInPlace(S); SI ip2 = M; ip2.reexpressInPlace(R); SI ip3 = M; ip3.transformInPlace(X);
+          vh::P("inplace_equals_value_version", fn("siShift") + k + ".inplace", std::max(smDiff(ip.toSpatialMat(), Ms.toSpatialMat()), std::max(smDiff(ip2.toSpatialMat(), Mr.toSpatialMat()), smDiff(ip3.toSpatialMat(), Mt.toSpatialMat()))), 0.0); }
         // transform = shift then re-express, and its inverse undoes it
         vh::P("transform_is_shift_then_reexpress", fn("siTransform") + k + ".def", smDiff(Mt.toSpatialMat(), M.shift(X.p()).reexpress(X.R()).toSpatialMat()) / (dn * (1 + (double)X.p().normSqr())), 64 * eps());
         vh::P("transform_roundtrip", fn("siTransform") + k + ".rt", smDiff(Mt.transform(~X).toSpatialMat(), dense) / (dn * (1 + (double)X.p().normSqr())), 256 * eps());
@@ -214,7 +238,7 @@ template <class P> struct H {
         { MP mpi(b.m, b.com, b.Io); vh::Line in = vh::I(fn("mpOfInertia")); in.d(b.m); putV(in, b.com); putS(in, b.Io.asSymMat33()); in.emit(); tol(); vh::Line o = vh::O(fn("mpOfInertia")); putMP(o, mpi); o.emit(); vh::D(fn("mpOfInertia")); }
         vh::P("massprops_dense_equals_spatial_inertia", fn("mpDense") + k + ".si", smDiff(mpDense, dense) / dn, 16 * eps());
         { Mat<6, 6, P> m66 = mp.toMat66(); double w = 0; for (int i = 0; i < 6; ++i) for (int j = 0; j < 6; ++j) w = std::max(w, std::fabs((double)m66(i, j) - (double)mpDense(i / 3, j / 3)(i % 3, j % 3)));
-          vh::P("toMat66_equals_toSpatialMat", fn("mpDense") + k + ".m66", w / dn, 0.0); }
+          vh::P("toMat66_equals_toSpatialMat", fn("mpDense") + k + ".m66", w / dn, 16 * eps()); }
         SM mptDense = mpt.toSpatialMat();
         vh::P("massprops_transform_agrees_with_spatial_inertia", fn("mpTransformed") + k + ".si", smDiff(mptDense, Mt.toSpatialMat()) / (dn * (1 + (double)X.p().normSqr())), 64 * eps());
         vh::P("massprops_shift_agrees_with_spatial_inertia", fn("mpShifted") + k + ".si", smDiff(mps.toSpatialMat(), Ms.toSpatialMat()) / (dn * (1 + (double)S.normSqr())), 64 * eps());
@@ -239,6 +263,10 @@ template <class P> struct H {
         SM want = phi * Pd * phiT;
         vh::P("articulated_shift_equals_phi_P_phiT", fn("abiShift") + ".dense", smDiff(Psh.toSpatialMat(), want) / (pn * (1 + (double)S.normSqr())), 64 * eps());
         vh::P("articulated_shift_of_rigid_body_is_rigid_shift_by_minus_s", fn("abiShift") + k + ".rigid", smDiff(A.shift(S).toSpatialMat(), ABI(M.shift(-S)).toSpatialMat()) / (dn * (1 + (double)S.normSqr())), 64 * eps());
+        { ABI ip = Pg; ip.shiftInPlace(S); ABI sum = Pg; sum += A; ABI dif = sum; dif -= A;
+          vh::P("inplace_equals_value_version", fn("abiShift") + ".inplace", smDiff(ip.toSpatialMat(), Psh.toSpatialMat()), 0.0);
+          vh::P("articulated_sum_is_dense_sum", fn("abiDense") + ".sum", smDiff(sum.toSpatialMat(), Pd + A.toSpatialMat()) / (pn + dn), 16 * eps());
+          vh::P("minus_undoes_plus", fn("abiDense") + ".minus", smDiff(dif.toSpatialMat(), Pd) / (pn + dn), 64 * eps()); }
         vh::P("rigid_body_abi_dense_equals_spatial_inertia", fn("abiOfSi") + k + ".dense", smDiff(A.toSpatialMat(), dense) / dn, 16 * eps());
     }
 };
@@ -253,17 +281,20 @@ template <class P> static void validRecord(const SymMat<3, P>& S, const std::str
 }
 static void validCase(vh::Rng& g) {
     typedef SymMat<3, double> Sym;
-    int k = g.below(6);
+    int k = g.below(7);
     if (k == 0) {   // negative moment
         double d[3] = {g.range(0.1, 5), g.range(0.1, 5), g.range(0.1, 5)}; d[g.below(3)] = -g.range(1e-6, 5);
         Sym S(d[0], 0, d[1], 0, 0, d[2]);
         validRecord<double>(S, "negdiag"); validRecord<float>(SymMat<3, float>((float)d[0], 0, (float)d[1], 0, 0, (float)d[2]), "negdiag");
         vh::P("invalid_inertia_rejected", "isValid.negdiag.reject", Inertia::isValidInertiaMatrix(S) ? 1.0 : 0.0, 0.0);
+        vh::P("invalid_inertia_rejected", "isValidF.negdiag.reject", Inertia_<float>::isValidInertiaMatrix(SymMat<3, float>((float)d[0], 0, (float)d[1], 0, 0, (float)d[2])) ? 1.0 : 0.0, 0.0);
     } else if (k == 1) {   // triangle inequality violated
         double a = g.range(0.1, 5), b = g.range(0.1, 5), ex = std::pow(10.0, -g.range(0, 6)) * (a + b);
         double d[3]; int big = g.below(3); d[big] = a + b + ex; d[(big + 1) % 3] = a; d[(big + 2) % 3] = b;
         Sym S(d[0], 0, d[1], 0, 0, d[2]);
         validRecord<double>(S, "triangle");
+        if (ex >= 1e-3 * (a + b)) { SymMat<3, float> Sf((float)d[0], 0, (float)d[1], 0, 0, (float)d[2]); validRecord<float>(Sf, "triangle");
+            vh::P("invalid_inertia_rejected", "isValidF.triangle.reject", Inertia_<float>::isValidInertiaMatrix(Sf) ? 1.0 : 0.0, 0.0); }
         vh::P("invalid_inertia_rejected", "isValid.triangle.reject", Inertia::isValidInertiaMatrix(S) ? 1.0 : 0.0, 0.0);
     } else if (k == 2) {   // product larger than the code's bound
         double d[3] = {g.range(1, 5), g.range(1, 5), g.range(1, 5)}; if (d[0] + d[1] < d[2]) d[2] = d[0] + d[1];
@@ -271,16 +302,59 @@ static void validCase(vh::Rng& g) {
         double p[3] = {0, 0, 0}; int w = g.below(3); p[w] = (g.coin() ? 1 : -1) * d[2 - w] * (0.5 + std::pow(10.0, -g.range(0, 6)));
         Sym S(d[0], p[0], d[1], p[1], p[2], d[2]);
         validRecord<double>(S, "product");
+        if (std::fabs(p[w]) >= d[2 - w] * 0.501) { SymMat<3, float> Sf((float)d[0], (float)p[0], (float)d[1], (float)p[1], (float)p[2], (float)d[2]); validRecord<float>(Sf, "product");
+            vh::P("invalid_inertia_rejected", "isValidF.product.reject", Inertia_<float>::isValidInertiaMatrix(Sf) ? 1.0 : 0.0, 0.0); }
         vh::P("invalid_inertia_rejected", "isValid.product.reject", Inertia::isValidInertiaMatrix(S) ? 1.0 : 0.0, 0.0);
     } else if (k == 3) {   // exactly on the boundary / limits: point-mass-like (one zero moment), thin rod
         double a = g.range(0.1, 5);
         int ax = g.below(3); double d[3] = {a, a, a}; d[ax] = 0;
         Sym S(d[0], 0, d[1], 0, 0, d[2]);
         validRecord<double>(S, "rodlimit");
+        { SymMat<3, float> Sf((float)d[0], 0, (float)d[1], 0, 0, (float)d[2]); validRecord<float>(Sf, "rodlimit");
+          vh::P("limit_inertia_accepted", "isValidF.rodlimit.accept", Inertia_<float>::isValidInertiaMatrix(Sf) ? 0.0 : 1.0, 0.0); }
         vh::P("limit_inertia_accepted", "isValid.rodlimit.accept", Inertia::isValidInertiaMatrix(S) ? 0.0 : 1.0, 0.0);
         Sym Z(0, 0, 0, 0, 0, 0);
         validRecord<double>(Z, "zero");
         vh::P("limit_inertia_accepted", "isValid.zero.accept", Inertia::isValidInertiaMatrix(Z) ? 0.0 : 1.0, 0.0);
+    } else if (k == 4) {
+        // slop boundary: each of the six inequalities violated by f x slop with slop = max(trace,1)*Significant; the code must
+        // accept for f < 1 and reject for f > 1 (discriminates the slop formula: Slop=0, sqrt(Eps)-slop, missing max(.,1))
+        static const double fs[4] = {0.1, 0.5, 2, 10};
+        double f = fs[g.below(4)]; int which = g.below(6); bool small = g.coin();
+        double a = small ? g.range(0.02, 0.15) : g.range(0.8, 4), b = small ? g.range(0.02, 0.15) : g.range(0.8, 4);
+        double d[3], p[3] = {0, 0, 0};   // p = (xy, xz, yz)
+        if (which < 3) {   // triangle: d[which] = sum of the other two + f*slop
+            double tr0 = 2 * (a + b), slop = std::max(tr0, 1.0) * SignificantReal;
+            d[which] = a + b + f * slop; d[(which + 1) % 3] = a; d[(which + 2) % 3] = b;
+        } else {           // product: |2 p| = opposite moment + f*slop   (yz <-> xx, xz <-> yy, xy <-> zz)
+            int m = which - 3; d[0] = a + b; d[1] = a + b * 0.9; d[2] = a * 0.9 + b;
+            double tr0 = d[0] + d[1] + d[2], slop = std::max(tr0, 1.0) * SignificantReal;
+            p[2 - m] = (g.coin() ? 0.5 : -0.5) * (d[m] + f * slop);
+        }
+        Sym S(d[0], p[0], d[1], p[1], p[2], d[2]);
+        std::string cls = std::string("slop.") + (which < 3 ? "triangle" : "product") + (small ? ".trace_lt_1" : ".trace_gt_1");
+        validRecord<double>(S, cls + (f < 1 ? ".inside" : ".outside"));
+        bool ok = Inertia::isValidInertiaMatrix(S);
+        char fb[32]; std::snprintf(fb, sizeof fb, "%g", f);
+        vh::P("slop_is_max_trace_1_times_significant", "isValid." + cls + ".f" + fb, (ok == (f < 1)) ? 0.0 : 1.0, 0.0);
+        if (f == 0.1 || f == 10) {   // float: only the clearly separated factors (one slop is ~7 ulp there)
+            float af = (float)a, bf = (float)b, df[3], pf[3] = {0, 0, 0};
+            if (which < 3) { float slopf = std::max(2 * (af + bf), 1.0f) * NTraits<float>::getSignificant();
+                df[which] = af + bf + (float)f * slopf; df[(which + 1) % 3] = af; df[(which + 2) % 3] = bf; }
+            else { int m = which - 3; df[0] = af + bf; df[1] = af + bf * 0.9f; df[2] = af * 0.9f + bf;
+                float slopf = std::max(df[0] + df[1] + df[2], 1.0f) * NTraits<float>::getSignificant();
+                pf[2 - m] = (p[2 - m] > 0 ? 0.5f : -0.5f) * (df[m] + (float)f * slopf); }
+            SymMat<3, float> Sf(df[0], pf[0], df[1], pf[1], pf[2], df[2]);
+            validRecord<float>(Sf, cls + (f < 1 ? ".inside" : ".outside"));
+            vh::P("slop_is_max_trace_1_times_significant", "isValidF." + cls + ".f" + fb, (Inertia_<float>::isValidInertiaMatrix(Sf) == (f < 1)) ? 0.0 : 1.0, 0.0);
+        }
+        // NaN in any slot must be rejected
+        { int slot = g.below(6); double e[6] = {1, 1, 1, 0.1, 0.1, 0.1}; e[slot] = NaN;
+          Sym N(e[0], e[3], e[1], e[4], e[5], e[2]);
+          vh::P("invalid_inertia_rejected", "isValid.nan.reject", Inertia::isValidInertiaMatrix(N) ? 1.0 : 0.0, 0.0);
+          SymMat<3, float> Nf((float)e[0], (float)e[3], (float)e[1], (float)e[4], (float)e[5], (float)e[2]);
+          vh::P("invalid_inertia_rejected", "isValidF.nan.reject", Inertia_<float>::isValidInertiaMatrix(Nf) ? 1.0 : 0.0, 0.0);
+          vh::D("isValid.nan.slot" + std::to_string(slot)); }
     } else {
         // probe: matrices that satisfy every coded condition with margin; whatever the code ACCEPTS must be positive
         // semi-definite and satisfy the triangle inequalities (statement of the property)
@@ -321,6 +395,12 @@ static void algebraCase(vh::Rng& g) {
       SpatialVec fd((shiftVelocityBy(Vp, rp)[0] - shiftVelocityBy(Vm, rm)[0]) / (2 * h), (shiftVelocityBy(Vp, rp)[1] - shiftVelocityBy(Vm, rm)[1]) / (2 * h));
       SpatialVec an = shiftAccelerationBy(A, V[0], r);
       vh::P("shift_acceleration_is_derivative_of_shift_velocity", "shiftAcc.fd", HD::svDiff(fd, an) / std::max(1.0, HD::svNorm(an)), 1e-6); }
+    // kinetic energy / momentum / power with the library's own shift operators and a real SpatialInertia
+    { HD::Body bb = HD::genBody(g); SpatialInertia M = HD::toSI(bb); SpatialInertia Ms = M.shift(r);
+      SpatialVec MV = M * V, Vs = shiftVelocityBy(V, r), Ps = Ms * Vs, Pexp = shiftForceBy(MV, r);
+      double dn = HD::smNorm(M.toSpatialMat()), vn = HD::svNorm(V), scl = dn * (1 + r.normSqr());
+      vh::P("kinetic_energy_shift_invariant", "shiftVel.ke", std::fabs((~V * MV) - (~Vs * Ps)) / (scl * vn * vn), 64 * eps);
+      vh::P("momentum_shifts_like_force", "shiftForce.momentum", HD::svDiff(Ps, Pexp) / (scl * vn), 64 * eps); }
     // relative velocity / acceleration
     Transform XA(HD::genRot(g), HD::genVec(g)), XB(HD::genRot(g), HD::genVec(g));
     SpatialVec VA = HD::genSV(g), VB = HD::genSV(g), AA = HD::genSV(g), AB = HD::genSV(g);
